@@ -1,6 +1,7 @@
 """C17 - batch conversion tools never touch their inputs and isolate bad files."""
 import json
 import os
+import re
 
 from simkit import fsbox, seams, seeds
 from simkit.session import Result, jdump, signature
@@ -74,6 +75,46 @@ def doc_spec(rng, tag):
     return {"author": "author %s" % tag, "secs": secs}
 
 
+def full_spec(doc_seed, base, kind):
+    """doc_spec plus, from a stream of its own (older replay files keep their documents), the
+    spellings a valid file of that kind may also use."""
+    spec = doc_spec(seeds.Streams(doc_seed).get("doc"), base)
+    rng = seeds.Streams(doc_seed).get("doc-extra")
+    if rng.random() < 0.6:
+        return spec
+    feats = []
+    if rng.random() < 0.4:
+        # Document attributes a JSON / YAML decoder does not hand back as text
+        spec["date"] = "2018-02-0%d" % rng.randint(1, 9)
+        spec["version"] = rng.choice([1.2, 3, "v1"])
+        feats.append("doc-attrs")
+    props = [p for sec in spec["secs"] for p in sec["props"]]
+    if props and rng.random() < 0.4:
+        p = rng.choice(props)
+        # several values; a text value may hold a comma
+        p["more"] = [{"int": "7", "float": "2.5", "string": rng.choice(["more", "a, b", "x,y"])}
+                     [p["dtype"]] for _ in range(rng.randint(1, 2))]
+        if p["dtype"] == "string" and rng.random() < 0.5:
+            p["value"] = "first, second"
+        feats.append("multi-values")
+    if props and kind in ("v10json", "v10yaml") and rng.random() < 0.3:
+        rng.choice(props)["unit_null"] = True         # "unit": null
+        feats.append("null-unit")
+    if kind in ("v10json", "v10yaml") and spec["secs"] and rng.random() < 0.3:
+        spec["empty_keys"] = True       # 'properties:' / 'sections:' present and empty
+        feats.append("empty-keys")
+    if kind in GOOD10 and len(spec["secs"]) >= 2 and rng.random() < 0.3:
+        # version 1.0 allowed siblings of one name; the converter numbers them
+        first = spec["secs"][0]["name"]
+        spec["secs"][1]["name"] = first
+        if len(spec["secs"]) >= 3 and rng.random() < 0.6:
+            spec["secs"][2]["name"] = first + "-2"
+        spec["dupnames"] = True
+        feats.append("dup-names")
+    spec["feats"] = feats
+    return spec
+
+
 def xml10(spec):
     def sec_xml(sec, ind):
         pad = "  " * ind
@@ -85,7 +126,8 @@ def xml10(spec):
             inner = "<type>%s</type>" % p["dtype"]
             if p["unit"]:
                 inner += "<unit>%s</unit>" % p["unit"]
-            out.append("%s    <value>%s%s</value>" % (pad, p["value"], inner))
+            for val in [p["value"]] + p.get("more", []):
+                out.append("%s    <value>%s%s</value>" % (pad, val, inner))
             out.append("%s  </property>" % pad)
         for s in sec["secs"]:
             out.extend(sec_xml(s, ind + 1))
@@ -93,37 +135,58 @@ def xml10(spec):
         return out
     lines = ['<?xml version="1.0" encoding="UTF-8"?>', '<odML version="1">',
              "  <author>%s</author>" % spec["author"]]
+    if "date" in spec:
+        lines.append("  <date>%s</date>" % spec["date"])
+        lines.append("  <version>%s</version>" % spec["version"])
     for sec in spec["secs"]:
         lines.extend(sec_xml(sec, 1))
     lines.append("</odML>")
     return "\n".join(lines) + "\n"
 
 
-def dict10(spec):
+def dict10(spec, dates_as_objects=False):
     def sec_d(sec):
         out = {"name": sec["name"], "type": sec["type"]}
         if sec["props"]:
             out["properties"] = []
             for p in sec["props"]:
-                val = {"value": p["value"], "dtype": p["dtype"]}
-                if p["unit"]:
-                    val["unit"] = p["unit"]
-                out["properties"].append({"name": p["name"], "values": [val]})
+                vals = []
+                for text in [p["value"]] + p.get("more", []):
+                    val = {"value": text, "dtype": p["dtype"]}
+                    if p["unit"]:
+                        val["unit"] = p["unit"]
+                    elif p.get("unit_null"):
+                        val["unit"] = None
+                    vals.append(val)
+                out["properties"].append({"name": p["name"], "values": vals})
+        elif spec.get("empty_keys"):
+            out["properties"] = None
         if sec["secs"]:
             out["sections"] = [sec_d(s) for s in sec["secs"]]
+        elif spec.get("empty_keys"):
+            out["sections"] = None
         return out
-    return {"Document": {"author": spec["author"], "sections": [sec_d(s) for s in spec["secs"]]},
-            "odml-version": "1"}
+    docd = {"author": spec["author"], "sections": [sec_d(s) for s in spec["secs"]]}
+    if "date" in spec:
+        import datetime
+        # yaml.safe_dump writes a date object as an unquoted scalar, which decodes to a date again
+        docd["date"] = datetime.date(*[int(x) for x in spec["date"].split("-")]) \
+            if dates_as_objects else spec["date"]
+        docd["version"] = spec["version"]
+    return {"Document": docd, "odml-version": "1"}
 
 
 def build11(odml, spec):
     doc = odml.Document(author=spec["author"])
+    if "date" in spec:
+        doc.date = spec["date"]
+        doc.version = str(spec["version"])
 
     def add(parent, sec):
         s = odml.Section(name=sec["name"], type=sec["type"], parent=parent)
         for p in sec["props"]:
-            odml.Property(name=p["name"], values=p["value"], dtype=p["dtype"], unit=p["unit"],
-                          parent=s)
+            odml.Property(name=p["name"], values=[p["value"]] + p.get("more", []),
+                          dtype=p["dtype"], unit=p["unit"], parent=s)
         for sub in sec["secs"]:
             add(s, sub)
     for sec in spec["secs"]:
@@ -137,8 +200,9 @@ def describe(doc):
         return {"name": sec.name, "type": sec.type,
                 "props": sorted([(p.name, [str(v) for v in p.values], p.unit) for p in sec.properties]),
                 "secs": sorted([sec_d(s) for s in sec.sections], key=lambda d: d["name"])}
-    return {"author": doc.author, "secs": sorted([sec_d(s) for s in doc.sections],
-                                                  key=lambda d: d["name"])}
+    return {"author": doc.author, "date": str(doc.date) if doc.date else None,
+            "version": doc.version,
+            "secs": sorted([sec_d(s) for s in doc.sections], key=lambda d: d["name"])}
 
 
 def describe_spec(spec, conv10=False):
@@ -147,12 +211,13 @@ def describe_spec(spec, conv10=False):
     def sec_d(sec):
         props = []
         for p in sec["props"]:
-            val = dtypes.get(p["value"], p["dtype"])
-            props.append((p["name"], [str(val)], p["unit"]))
+            vals = [str(dtypes.get(v, p["dtype"])) for v in [p["value"]] + p.get("more", [])]
+            props.append((p["name"], vals, p["unit"]))
         return {"name": sec["name"], "type": sec["type"], "props": sorted(props),
                 "secs": sorted([sec_d(s) for s in sec["secs"]], key=lambda d: d["name"])}
-    return {"author": spec["author"], "secs": sorted([sec_d(s) for s in spec["secs"]],
-                                                      key=lambda d: d["name"])}
+    return {"author": spec["author"], "date": spec.get("date"),
+            "version": str(spec["version"]) if "version" in spec else None,
+            "secs": sorted([sec_d(s) for s in spec["secs"]], key=lambda d: d["name"])}
 
 
 def generate(run_seed):
@@ -200,14 +265,14 @@ def materialise(odml, root, files):
         d = os.path.join(root, f["dir"])
         os.makedirs(d, exist_ok=True)
         path = os.path.join(d, f["base"] + f["ext"])
-        spec = doc_spec(seeds.Streams(f["doc_seed"]).get("doc"), f["base"])
         kind = f["kind"]
+        spec = full_spec(f["doc_seed"], f["base"], kind)
         if kind == "v10xml":
             text = xml10(spec)
         elif kind == "v10json":
             text = json.dumps(dict10(spec), indent=2)
         elif kind == "v10yaml":
-            text = yaml.safe_dump(dict10(spec), default_flow_style=False)
+            text = yaml.safe_dump(dict10(spec, dates_as_objects=True), default_flow_style=False)
         elif kind in GOOD11:
             odml.save(build11(odml, spec), path, {"v11xml": "xml", "v11json": "json",
                                                   "v11yaml": "yaml"}[kind])
@@ -381,9 +446,17 @@ def run_case(case):
                         vio = ("batch.isolates", "unconvertible file %s%s (%s) was not skipped: "
                                "outputs %r" % (f["base"], f["ext"], f["kind"], names))
                         break
-                    if f["kind"] in BAD and f["base"] + f["ext"] not in report:
-                        vio = ("batch.isolates", "bad file %s%s is not named in the report" %
-                               (f["base"], f["ext"]))
+                    # "reported": beyond the line every file gets when its turn comes
+                    # ("[Info] Handling file ..."), the report says something about this file
+                    said = [ln for ln in re.split(r"(?=\[(?:Info|Error|Warning)\])", report)
+                            if f["base"] + f["ext"] in ln and "Handling file" not in ln]
+                    if f["kind"] in BAD and not said:
+                        labels.append("src:" + f["kind"])
+                        vio = ("batch.isolates", "unconvertible file %s%s (%s) is skipped without "
+                               "being reported: the report only says %r" %
+                               (f["base"], f["ext"], f["kind"],
+                                [ln.strip() for ln in report.splitlines()
+                                 if f["base"] + f["ext"] in ln][:3]))
                         break
         # (4b) the format converter promises no isolation, but a tree in which every file is of
         # the kind it converts must come out complete: each output "with the content of its source"
@@ -454,7 +527,7 @@ def check_output(odml, full, name, src, tool, run):
     from odml.tools.xmlparser import XMLReader
     if src is None:
         return "output %s has no source file" % name
-    spec = doc_spec(seeds.Streams(src["doc_seed"]).get("doc"), src["base"])
+    spec = full_spec(src["doc_seed"], src["base"], src["kind"])
     want = describe_spec(spec)
     if name.endswith((".xml", ".odml")):
         try:
@@ -463,6 +536,13 @@ def check_output(odml, full, name, src, tool, run):
             return "output %s does not load with the strict reader: %s: %s" % (
                 name, type(exc).__name__, str(exc)[:100])
         got = describe(doc)
+        if spec.get("dupnames"):
+            # the converter numbers siblings of one name: the top-level names are its choice,
+            # everything else (how many Sections, their types and content) is the source's
+            for side in (got, want):
+                for sec in side["secs"]:
+                    sec["name"] = None
+                side["secs"].sort(key=lambda d: d["type"])
         if src["kind"] in GOOD10 + GOOD11 and got != want:
             return "output %s does not carry the content of its source: %r vs %r" % (
                 name, got, want)
@@ -490,6 +570,23 @@ def check_output(odml, full, name, src, tool, run):
                 want_names.append(p[0])
             collect(s["secs"])
     collect(want["secs"])
+    if spec.get("dupnames"):
+        # the converter numbers siblings of one name: the top-level names are its choice; all
+        # other names, and how many top-level Sections there are, are the source's
+        top = [s_["name"] for s_ in want["secs"]]
+        rest = list(want_names)
+        for nm in top:
+            rest.remove(nm)
+        left = list(names)
+        for nm in rest:
+            if nm in left:
+                left.remove(nm)
+            else:
+                return "RDF output %s lacks the name %r of its source" % (name, nm)
+        if len(left) != len(top) or len(set(left)) != len(left):
+            return "RDF output %s names its top-level Sections %r, source has %d of them" % (
+                name, left, len(top))
+        return None
     if src["kind"] in GOOD10 + GOOD11 and names != sorted(want_names):
         return "RDF output %s names %r, source has %r" % (name, names, sorted(want_names))
     return None
